@@ -114,6 +114,14 @@ static Result run_c08(const Case &c) {
         while (!live.empty()) { liberasurecode_instance_destroy(live.back()); live.pop_back(); }
         r.cls("churn_" + std::to_string(churn >= 64 ? 64 : churn >= 8 ? 8 : 1) + "plus");
     }
+    // destroys that fail (unknown, negative or already destroyed descriptors) happen in real programs; they change nothing
+    int bad_destroys = (int)c.get("bad_destroys", 0);
+    for (int i = 0; i < bad_destroys; i++) {
+        int victim = i % 3 == 0 ? -1 - i : i % 3 == 1 ? (in.desc > INT32_MAX - 5000 ? in.desc - 4321 - i : in.desc + 4321 + i) : 0;
+        if (after_wrap && victim == after_wrap->desc) victim = -7;
+        if (liberasurecode_instance_destroy(victim) >= 0) r.fail("destroy of unknown descriptor " + std::to_string(victim) + " succeeded");
+    }
+    if (bad_destroys) r.cls("failed_destroys_before_queries");
     uint64_t unit = (uint64_t)g.k * ref::word_bytes(g);
     int fs = liberasurecode_get_fragment_size(in.desc, (int)len);
     int al = liberasurecode_get_aligned_data_size(in.desc, len);
@@ -166,6 +174,7 @@ static Case gen_c08() {
     c.set("wrap", wrap ? 1 : 0);
     c.set("counter", wrap ? INT32_MAX - 1 - pick(0, 1) * 0 : (coin(1, 3) ? pick(0, 100000) : 0));
     if (coin(1, 8)) { static const int cs[] = {1, 7, 63, 64, 65, 127, 128, 129, 255, 256, 257}; c.set("churn", coin(2, 3) ? cs[pick(0, 10)] : (int)pick(1, 300)); }
+    if (coin(1, 4)) c.set("bad_destroys", pick(1, 4));
     return c;
 }
 static void sweep_c08() {
@@ -506,6 +515,14 @@ static Result run_c05_encode(const Case &c) {
         bool any = false;
         for (size_t i = 0; i < data.size(); i++) if (data[i]) any = true;
         if (!any && data.size() > (size_t)unit * bs) data[(size_t)unit * bs] = 0x5a;
+        // sparse variant: a single non-zero byte at a chosen offset of that fragment (start, start of the last partial
+        // 16-byte group, last byte, middle)
+        int ub = (int)c.get("unit_byte", -1);
+        if (ub >= 0 && bs > 0) {
+            size_t off = ub == 0 ? 0 : ub == 1 ? (bs / 16) * 16 % bs : ub == 2 ? bs - 1 : bs / 2;
+            size_t at = (size_t)unit * bs + off;
+            if (at < data.size()) { uint8_t keep = data[at] ? data[at] : 0xa7; for (size_t i = 0; i < data.size(); i++) data[i] = 0; data[at] = keep; }
+        }
     }
     Instance in(g);
     if (!in.ok()) { r.fail("create refused supported flat-XOR shape rc=" + std::to_string(in.desc)); return r; }
@@ -623,6 +640,7 @@ static void sweep_c05_encode() {
                 c.set("data_cls", BUF_RANDOM); c.set("data_seed", 40000 + counter); c.set("data_len", (int64_t)pays[pi] * sh.k);
                 c.set("unit_frag", u);
                 sweep_case(c, run_c05_encode);
+                if (u >= 0) for (int ub = 0; ub < 4; ub++) { Case c2 = c; c2.set("unit_byte", ub); sweep_case(c2, run_c05_encode); }
             }
         }
     }
